@@ -1111,7 +1111,7 @@ func nullableElementDerefs(f *ssa.Function, decoded map[*types.Named]bool) []ele
 // path every such element is tested before it is dereferenced.
 func ruleC07DecodedPointerElementsGuarded(c *Ctx) {
 	u := c.U1
-	c.rule("C07.decoded-pointer-elements-guarded", "for every struct type that json.Unmarshal decodes into on the decrypt path (reachable from DecryptDataRowRecord / Session.Load / Session.Decrypt, KMS plugins included): a pointer read out of a slice or map of pointers to such a type is dereferenced only under a dominating non-nil test (a `null` element must yield an error, not a panic)", 0)
+	c.rule("C07.decoded-pointer-elements-guarded", "for every struct type that json.Unmarshal decodes into on the decrypt path (reachable from DecryptDataRowRecord / Session.Load / Session.Decrypt, KMS plugins included): a pointer read out of a slice or map of pointers to such a type, and a pointer variable that json.Unmarshal fills through its address (**T target), is dereferenced only under a dominating non-nil test (a `null` must yield an error, not a panic)", 0)
 	cg := newCallGraph(u)
 	funcs := map[*ssa.Function]bool{}
 	for _, start := range []*ssa.Function{u.Method(pkgApp, "envelopeEncryption", "DecryptDataRowRecord"), u.Method(pkgApp, "Session", "Load"), u.Method(pkgApp, "Session", "Decrypt")} {
@@ -1146,6 +1146,12 @@ func ruleC07DecodedPointerElementsGuarded(c *Ctx) {
 			n++
 			c.CallSites++
 			c.bad(trimPkgDirs(shortName(f))+"/element "+describeOperand(d.Ptr), u.ipos(d.Instr), "a pointer element of a decoded list/map is dereferenced without a non-nil test: a `null` entry in the stored document (a corrupted or forged key envelope) crashes the process with a nil dereference instead of producing an error")
+		}
+		// a pointer variable decoded through &p (a **T target) is nil after the JSON literal `null`
+		for _, d := range nilableDecodeTargetDerefs(f) {
+			n++
+			c.CallSites++
+			c.bad(trimPkgDirs(shortName(f))+"/decoded-pointer "+describeOperand(d.Ptr), u.ipos(d.Instr), "a pointer that json.Unmarshal filled through its address is dereferenced without a non-nil test: a stored document consisting of the JSON literal `null` decodes without error and leaves the pointer nil — a corrupted key row crashes the process instead of producing an error")
 		}
 	}
 	c.check(targets > 0, "decrypt-path/json-targets", "", fmt.Sprintf("%d json.Unmarshal targets on the decrypt path, %d decoded struct types, %d unguarded element dereferences", targets, len(decoded), n), "no json.Unmarshal found on the decrypt path: the rule would pass vacuously")
